@@ -27,6 +27,7 @@ type Step struct {
 	Mod       *ModOp `json:"mod,omitempty"`
 	Behaviour int    `json:"behaviour,omitempty"`
 	SameTx    bool   `json:"same_tx,omitempty"` // next message of the previous message's transaction
+	ParamsB64 string `json:"params_b64,omitempty"`
 }
 
 type FundRec struct {
@@ -322,6 +323,19 @@ func (r *Run) Restart() StepResult {
 	return res
 }
 
+func (r *Run) ChangeParams(p types.Params) StepResult {
+	if expired() {
+		r.stop = true
+		return StepResult{}
+	}
+	pb, err := p.Marshal()
+	must(err)
+	st := Step{Kind: "params", ParamsB64: base64.StdEncoding.EncodeToString(pb), Desc: "parameter change: " + paramsDesc(p)}
+	res := r.w.ChangeParams(p)
+	r.after(st, nil, res)
+	return res
+}
+
 func (r *Run) SetModSvcBehaviour(b ModSvcBehaviour) {
 	r.w.modSvcBehaviour = b
 	r.hist.Steps = append(r.hist.Steps, Step{Kind: "modsvc", Behaviour: int(b), Desc: fmt.Sprintf("module service answers in mode %d", b)})
@@ -385,6 +399,12 @@ func Replay(a *App, h *History, mon *Mon) *Run {
 			r.SetModSvcBehaviour(ModSvcBehaviour(st.Behaviour))
 		case "restart":
 			r.Restart()
+		case "params":
+			pb, err := base64.StdEncoding.DecodeString(st.ParamsB64)
+			must(err)
+			var np types.Params
+			must(np.Unmarshal(pb))
+			r.ChangeParams(np)
 		}
 	}
 	r.Finish()
